@@ -400,7 +400,7 @@ def ruleLatentPOD(ts: datetime, pod: Time) -> Time:
 @rule(
     r"(?<!\d|\.)(?P<day>(?&_day))[\./]" # removed \-
     r"((?P<month>(?&_month))|(?P<named_month>({})))\.?"
-    r"(?!\d|am|\s*pm)".format(_rule_months)
+    r"(?!\d|am\b|\s*pm\b)".format(_rule_months)
 )
 # do not allow dd.ddam, dd.ddpm, but allow dd.dd am - e.g. in the German
 # "13.06 am Nachmittag"
@@ -419,7 +419,7 @@ def ruleDDMM(ts: datetime, m: RegexMatch) -> Optional[Time]:
 @rule(
     r"(?<!\d|\.)((?P<month>(?&_month))|(?P<named_month>({})))[/\-]"
     r"(?P<day>(?&_day))"
-    r"(?!\d|am|\s*pm)".format(_rule_months)
+    r"(?!\d|am\b|\s*pm\b)".format(_rule_months)
 )
 def ruleMMDD(ts: datetime, m: RegexMatch) -> Optional[Time]:
     if m.match.group("month"):
